@@ -95,6 +95,7 @@ class _InflightOperations:
     def terminate_processes(self) -> None:
         # Send SIGTERM to each process' process group (i.e., the subprocess and
         # its child processes).
+        unexpected_error = None
         for handle, _ in self._processes.values():
             try:
                 if handle.pid is None:
@@ -105,9 +106,16 @@ class _InflightOperations:
                 os.killpg(group_id, signal.SIGTERM)
             except OSError as ex:
                 # Ignore errors due to the process not existing or having no
-                # children.
-                if ex.errno != errno.ESRCH and ex.errno != errno.ECHILD:
-                    raise
+                # children, and processes we are not allowed to signal (a task
+                # that switched to another user). An error for one process must
+                # never keep the remaining ones from being terminated.
+                if (
+                    ex.errno not in (errno.ESRCH, errno.ECHILD, errno.EPERM)
+                    and unexpected_error is None
+                ):
+                    unexpected_error = ex
+        if unexpected_error is not None:
+            raise unexpected_error
 
     def clear(self) -> None:
         self.terminate_processes()
